@@ -44,7 +44,8 @@ PREFIXES = ["P", "D", "p-q", "p_q"]
 REAL = ["defn", "fn", "class", "lfor", "lfor-do", "sfor", "gfor", "dfor"]
 PLAIN = ["do", "let", "for"]
 SHAPES = ["bare", "as", "names", "star", "none"]
-MODES = ["none", "dict", "local"]
+INNER_VALUE = 77  # what the local macro defined inside evaluated code expands to
+MODES = ["none", "dict", "local", "dict+inner"]  # dict+inner: macros= dict, and the evaluated code defines a local macro of the same name itself
 # (NAME True _K) with _K = -1 for the two pooled core macros
 CORE = {"when": -1, "is_not": "bool:True"}
 K_VALUE = -1
@@ -178,7 +179,12 @@ def normalise(case):
             for n in op[3]:
                 if valid_call_name(n) and key_of(n) not in [key_of(x) for x in keys]:
                     keys.append(n)
-            ops.append(["eval", names, op[2], keys if op[2] == "dict" else []])
+            if op[2] == "dict+inner":
+                # the evaluated code defines the called names as local macros: plain, non-core, non-dotted names only
+                names = [n for n in (names or []) if "." not in n and key_of(n) not in CORE]
+                if not names:
+                    continue
+            ops.append(["eval", names, op[2], keys if op[2] in ("dict", "dict+inner") else []])
         elif k == "snap" and len(op) == 1:
             ops.append(["snap"])
     ops.extend(["close"] for _ in range(depth))
@@ -455,7 +461,7 @@ def build(case, prefix_filtered=False):
             if op[2] == "local" and opi in skip:
                 continue
             macros = {}
-            if op[2] == "dict":
+            if op[2] in ("dict", "dict+inner"):
                 macros = {k2: dict(v=v, how="eval-macros", exported=True, frame=None) for k2, v in here["dict"].items()}
             elif op[2] == "local":
                 macros = here["local"]
@@ -464,6 +470,9 @@ def build(case, prefix_filtered=False):
                 rid = "%d:%s" % (opi, n)
                 if key in macros:
                     b, hit = macros[key], "eval-macros"
+                elif op[2] == "dict+inner":
+                    # no entry in macros=: the local macro that the evaluated code itself defines is the innermost definition
+                    b, hit = dict(v=INNER_VALUE), "inner-local"
                 elif key in run_mod:
                     b, hit = run_mod[key], "module"
                 elif key in CORE:
@@ -472,7 +481,8 @@ def build(case, prefix_filtered=False):
                     b, hit = None, "none"
                 expect[rid] = b["v"] if b is not None else (CORE[key] if hit == "core" else "NameError")
                 # (a local macro handed over through (local-macros) is named by the construct that defined it)
-                want = "eval-macros:dict" if hit == "eval-macros" and op[2] == "dict" else (label(b) if b is not None else hit)
+                want = ("eval-macros:dict" if hit == "eval-macros" and op[2] in ("dict", "dict+inner") else
+                        "local:defmacro-inside-the-evaluated-code" if hit == "inner-local" else (label(b) if b is not None else hit))
                 info[rid] = dict(kind="eval", name=n, key=key, opi=opi, want=want, hit=hit, stack=here["stack"], run_mod=dict(run_mod))
                 classes.add("eval(%s)->%s" % (op[2], hit))
                 if hit == "eval-macros" and (key in run_mod or key in CORE):
@@ -597,7 +607,7 @@ def render_module(plan, modnames):
         elif k == "eval":
             if op[2] == "local" and opi in plan["skip"]:
                 continue
-            if op[2] == "dict":
+            if op[2] in ("dict", "dict+inner"):
                 d = plan["at"][opi]["dict"]
                 emit("(setv _D%d {%s})" % (opi, " ".join('"%s" (fn [#* a] %d)' % (hyname(spell(k2), modnames), v) for k2, v in d.items())))
                 m = " :macros _D%d" % opi
@@ -606,7 +616,11 @@ def render_module(plan, modnames):
             else:
                 m = ""
             for n in (op[1] if op[1] is not None else plan["universe"]):
-                rec("%d:%s" % (opi, n), "(hy.eval '(%s True _K)%s)" % (hyname(n, modnames), m))
+                if op[2] == "dict+inner":
+                    nm = hyname(n, modnames)
+                    rec("%d:%s" % (opi, n), "(hy.eval '(do (defn _inner [] (defmacro %s [#* a] %d) (%s True _K)) (_inner))%s)" % (nm, INNER_VALUE, nm, m))
+                else:
+                    rec("%d:%s" % (opi, n), "(hy.eval '(%s True _K)%s)" % (hyname(n, modnames), m))
         elif k == "snap":
             if opi not in plan["skip"]:
                 emit('(.append _LOG ["%d:snap" (sorted (.keys (local-macros)))])' % opi)
